@@ -600,6 +600,70 @@ def concurrent_publish_case(ctx, case: dict) -> None:
                       f"client published {published!r:.200}", case)
 
 
+def reconnect_after_error_case(ctx, with_disconnect: bool, pending_read: bool) -> None:
+    """The broker connection breaks (receive error), the application connects again - with or without calling
+    disconnect() first.  connect() may refuse loudly (any exception); if it returns, the transport must hear the broker
+    again: a connect that returns normally and leaves the transport without a client is silent deafness."""
+    from aiomqtt import MqttError
+
+    from aiomysensors.transport.mqtt import MQTTClient
+
+    case = {"kind": "reconnect-after-error", "with_disconnect": with_disconnect, "pending_read": pending_read}
+    log: dict = {}
+
+    async def scenario() -> None:
+        transport = MQTTClient("broker.invalid", 1883, in_prefix="in", out_prefix="out")
+        await transport.connect()
+        first = FakeClient.instances[-1]
+        first.deliver("in/1/0/1/0/1", b"before")
+        log["before"] = await transport.read()
+        first.deliver_error(MqttError("broker went away"))
+        try:
+            await transport.read()
+            log["error_read"] = "returned"
+        except Exception as exc:  # noqa: BLE001
+            log["error_read"] = type(exc).__name__
+        if with_disconnect:
+            await transport.disconnect()
+        try:
+            await transport.connect()
+        except Exception as exc:  # noqa: BLE001
+            log["connect"] = f"refused loudly: {type(exc).__name__}"
+            return
+        log["connect"] = "returned"
+        clients = [c for c in FakeClient.instances if c.entered > c.exited]
+        log["live_clients"] = len(clients)
+        for client in FakeClient.instances:
+            client.deliver("in/2/0/1/0/2", b"after")
+        log["waiting"] = True
+        log["after"] = await transport.read()
+        log["waiting"] = False
+        await transport.disconnect()
+
+    with install() as seam:
+        if not seam:
+            return
+        result, _loop = run_virtual(scenario)
+    ctx.case(("reconnect-after-error", with_disconnect, pending_read), sample=case)
+    ctx.clause("reconnect-after-broker-error")
+    if isinstance(result, LogicalDeadlock):
+        if log.get("waiting"):
+            ctx.violation("mqtt-deaf", f"after a broker error connect() {'(after disconnect) ' if with_disconnect else ''}returned "
+                                       f"normally, {log.get('live_clients')} client(s) connected, but a broker message on the "
+                                       f"in-prefix is never read (logical deadlock)", case)
+        else:
+            ctx.violation("mqtt-deadlock", f"logical deadlock in {case}: {log}", case)
+        return
+    if isinstance(result, BaseException):
+        from ..harness import scenario_exception
+
+        scenario_exception(ctx, result, case, "reconnect-after-error")
+        return
+    ctx.obs("reconnect-after-error:" + str(log.get("connect")))
+    if log.get("connect") == "returned" and (log.get("after") or "").rstrip("\n") != "2;0;1;0;2;after":
+        ctx.violation("read-back-differs", f"after reconnecting the transport read {log.get('after')!r}", case)
+
+
 def disconnect_during_publish_case(ctx, variant: str, acked: int) -> None:
     """disconnect() is called by one task while ANOTHER task's publish is still on its way to a slow broker; then that
     publish fails, completes, never completes, or its writer is cancelled.  'Disconnect at any time': it completes
@@ -815,6 +879,8 @@ def run_case(ctx, case: dict) -> None:
         client_script_case(ctx, script, tuple(case["prefixes"]))
     elif kind == "concurrent-publish":
         concurrent_publish_case(ctx, case)
+    elif kind == "reconnect-after-error":
+        reconnect_after_error_case(ctx, case["with_disconnect"], case["pending_read"])
     elif kind == "two-clients":
         arun(two_clients_case(ctx, case["clients"]))
     elif kind == "disconnect-during-publish":
@@ -896,6 +962,9 @@ def run(ctx) -> None:
                     concurrent_publish_case(ctx, {"kind": "concurrent-publish", "writers": writers, "waves": waves,
                                                   "cancel": list(range(writers)) if all_acked else list(range(0, writers, 2)),
                                                   "later": 4, "all_acked": all_acked})
+        for i, (with_disconnect, pending) in enumerate(((False, False), (True, False))):
+            if ctx.mine(i):
+                reconnect_after_error_case(ctx, with_disconnect, pending)
         for i, variant in enumerate(("publish-fails", "writer-cancelled", "publish-completes", "publish-stalls")):
             for acked in (0, 1):
                 if ctx.mine(i * 2 + acked):
